@@ -650,9 +650,13 @@ def _run(r, obs, rep, F):
         # update_recursively(d, "a.b", value) == update_recursively(d, str_to_dict("a.b", value))
         obs.nontrivial = True
         ds = M.enum_dicts(LEAVES["q3"], 2)
-        for d in ds[::3]:
+        # values: scalars and nested dictionaries (merged recursively into what is there);
+        # dictionaries: depth 2 and, wrapped under one more key, depth 3
+        vals = [0, 1, "", None, {}, {"a": 1}, []] + ds[5::19]
+        targets = ds[::3] + [{"a": d} for d in ds[1::5]] + [{"b": d, "a": 1} for d in ds[2::11]]
+        for d in targets:
             for path in ["a", "b", "a.a", "a.b", "b.a.b", "a.b.a"]:
-                for val in [0, 1, "", None, {}, {"a": 1}, []]:
+                for val in vals:
                     x = M.cp(d)
                     F.update_recursively(x, path, M.cp(val))
                     other = val
